@@ -1,0 +1,7 @@
+//go:build !verif
+
+package validate
+
+// verifRedeemed is a no-op unless the package is built with the "verif" tag
+// (verification hooks, see verif_on.go).
+func verifRedeemed(any) bool { return false }
